@@ -145,3 +145,78 @@ package sam
 //@   mode bv
 //@   modifies f
 //@   ensures *f == (value ? old(*f) | 0x800 : old(*f) &^ 0x800)
+
+// ---- readers and iterators ----
+// The byte stream behind br (assumed contract of bufio.Reader, see
+// /verif/govc/extern.go): content in[0..end), position pos; at pos == end
+// reading returns io.EOF, or - if fault - a non-EOF error err (once or forever).
+
+//@ func ReaderHeader
+//@   props C06 C07 C11 C18
+//@   yields Y
+//@   ensures forall t int :: 0 <= t && t < len(Y) ==> Y[t].1 != 1
+//@   ensures forall t int :: 0 <= t && t < len(Y) && ioErr(Y[t].1) ==> t == len(Y)-1
+//@   loop 1
+//@     invariant br.pos <= br.end
+//@     invariant forall t int :: 0 <= t && t < len(Y) ==> Y[t].1 == nil || localErr(Y[t].1)
+//@     decreases (br.end - br.pos) + (br.fired ? 0 : 1) + (br.fault && br.forever ? 1 : 0)
+
+//@ func Reader
+//@   props C06 C07 C18
+//@   yields Y
+//@   ensures forall t int :: 0 <= t && t < len(Y) ==> Y[t].1 != 1
+//@   ensures forall t int :: 0 <= t && t < len(Y) && ioErr(Y[t].1) ==> t == len(Y)-1
+//@   ensures forall t int :: 0 <= t && t < len(Y) ==> (Y[t].1 != nil <==> Y[t].0 == nil)
+//@   loop 1
+//@     invariant forall t int :: 0 <= t && t < len(Y) ==> Y[t].1 != 1 && (Y[t].1 != nil <==> Y[t].0 == nil)
+//@     invariant forall t int :: 0 <= t && t < len(Y) && ioErr(Y[t].1) ==> t == len(Y)-1 && K == len(Z)
+
+//@ func File
+//@   props C06 C18
+//@   yields Y
+//@   let ZR := items(Reader, opened(file))
+//@   ensures openFails(file) ==> len(Y) == 1 && Y[0].1 != nil && Y[0].0 == nil
+//@   ensures !openFails(file) && !stopped ==> len(Y) == len(ZR)
+//@   ensures !openFails(file) ==> len(Y) <= len(ZR) && forall t int :: 0 <= t && t < len(Y) ==> same(Y[t], ZR[t])
+//@   loop 1
+//@     invariant !openFails(file) && len(Y) == K && forall t int :: 0 <= t && t < K ==> same(Y[t], ZR[t])
+
+//@ func FileHeader
+//@   props C06 C18
+//@   yields Y
+//@   let ZR := items(ReaderHeader, opened(file))
+//@   ensures openFails(file) ==> len(Y) == 1 && Y[0].1 != nil
+//@   ensures !openFails(file) && !stopped ==> len(Y) == len(ZR)
+//@   ensures !openFails(file) ==> len(Y) <= len(ZR) && forall t int :: 0 <= t && t < len(Y) ==> same(Y[t], ZR[t])
+//@   loop 1
+//@     invariant !openFails(file) && len(Y) == K && forall t int :: 0 <= t && t < K ==> same(Y[t], ZR[t])
+
+// ---- line parsing: safety (no panic for arbitrary fields) ----
+
+//@ func parseLine
+//@   props C11
+//@   thin
+//@   ensures result.1 == nil <==> result.0 != nil
+//@   ensures result.1 == nil || localErr(result.1)
+
+//@ func parseInts
+//@   props C11
+//@   thin
+//@   modifies p
+//@   requires forall k int :: 0 <= k && k < len(p) ==> p[k] != nil
+//@   panics len(strs) != len(p)
+//@   ensures result == nil || localErr(result)
+//@   loop 1
+//@     invariant len(strs) == len(p) && forall k int :: 0 <= k && k < len(p) ==> p[k] != nil
+
+//@ func parseTags
+//@   props C11
+//@   thin
+//@   ensures result.1 == nil || localErr(result.1)
+
+//@ func splitTag
+//@   props C11
+//@   thin
+//@   ensures result.1 == nil || localErr(result.1)
+//@   loop 1
+//@     invariant 0-1 <= colon1 && colon1 < i && colon2 == 0-1 && i <= len(tag)
